@@ -27,6 +27,9 @@ type e1Space struct {
 	Classify func(p *rj.Program, src map[string]string, ref rj.Result, got rj.ImplResult) string
 	// NonTrivial says whether the case exercises the construct under test.
 	NonTrivial func(p *rj.Program, ref rj.Result) bool
+	// Quirks lists deviant behaviours (known findings) the reference can emulate; a
+	// disagreement that disappears under exactly one of them gets that signature.
+	Quirks []string
 	// Extra is an additional oracle run on conforming cases; "" = ok.
 	Extra func(p *rj.Program, ref rj.Result, got rj.ImplResult) string
 }
@@ -101,6 +104,19 @@ func runSpace(r *core.Run, s *e1Space) {
 			sig := ""
 			if s.Classify != nil {
 				sig = s.Classify(p, src, ref, got)
+			}
+			if sig == "" {
+				for _, q := range s.Quirks {
+					p.Quirks = map[string]bool{q: true}
+					qref := rj.Eval(p)
+					p.Quirks = nil
+					// the deviation is explained by the quirk if, under it, the reference agrees with the
+					// implementation or reaches a state the property does not define (e.g. a zero divisor)
+					if qref.Unspec != "" || (rj.Compare(qref, got) == "" && (s.Extra == nil || s.Extra(p, qref, got) == "")) {
+						sig = q
+						break
+					}
+				}
 			}
 			r.Violate(core.Violation{Sig: sig, What: fmt.Sprintf("[%s #%d] %s :: %s", s.Name, i, p1(src, p.Entry), why),
 				Case: e1Case{Space: s.Prop + "/" + s.Name, Index: i, Thorough: th, Detail: rj.Describe(p, src, ref, got)}})
